@@ -510,6 +510,24 @@ func (x *ctx) runScenario(sc Scenario, dir string) {
 			lsize, ackDone = setAcked()
 			fsnap, _ = os.ReadFile(fAOF)
 			fsnapOK = aofSizeOf(follower.Port) == int64(len(fsnap))
+		case "stall-dial", "stall-reject", "stall-server", "stall-md5", "stall-replconf", "stall-aof":
+			stage := map[string]string{"stall-dial": "dial", "stall-reject": "reject", "stall-server": "server",
+				"stall-md5": "aofmd5|aof", "stall-replconf": "replconf", "stall-aof": "aof"}[st.Fault]
+			prev := followerStatus(follower.Port)
+			parksBefore := len(px.Parks())
+			px.SetPark(stage)
+			px.KillAll()
+			doLeader(st.Writes)
+			marker = newMarker()
+			lsize, ackDone = setAcked()
+			fsnap, _ = os.ReadFile(fAOF)
+			fsnapOK = aofSizeOf(follower.Port) == int64(len(fsnap))
+			bad := x.sampleStalledHandshake(sc, si, st, px, follower, parksBefore, ackDone, prev.caughtUp, marker, sig)
+			px.SetPark("")
+			px.ReleaseParks()
+			if bad {
+				return
+			}
 		case "pause":
 			expectReconnect = false
 			follower.Signal(syscall.SIGSTOP)
@@ -663,6 +681,87 @@ func (x *ctx) runScenario(sc Scenario, dir string) {
 	x.mu.Unlock()
 }
 
+// sampleStalledHandshake waits until the proxy holds (or has refused) a connection the follower opened AFTER the leader's
+// acknowledgements, then samples the follower: it lacks the marker by construction (no log stream has started since
+// the drop), so it must answer neither HEALTHZ OK nor caught_up=true (direct oracle), and its flag must be the model's
+// (begin_connect clears it: correspondence).
+func (x *ctx) sampleStalledHandshake(sc Scenario, si int, st Step, px *Proxy, follower *srv.Server, parksBefore int,
+	ackDone time.Time, prevCup bool, marker string, sig func(string) string) bool {
+	var pk *park
+	dl := time.Now().Add(20 * time.Second)
+	seen := parksBefore
+	for pk == nil && time.Now().Before(dl) {
+		ps := px.Parks()
+		for i := seen; i < len(ps); i++ {
+			if ps[i].Accepted.After(ackDone) {
+				pk = ps[i]
+				break
+			}
+			// the follower redialled before the acknowledgements were complete: drop that attempt, it will retry
+			x.dist("stall-early-redial")
+			seen = i + 1
+			px.KillAll()
+		}
+		if pk == nil {
+			time.Sleep(15 * time.Millisecond)
+		}
+	}
+	if pk == nil {
+		x.dist("stall-no-redial-seen")
+		return false
+	}
+	x.dist("stalled-handshake:" + pk.Stage)
+	mflag := "?"
+	if x.drv != nil {
+		mflag = x.drv.Ask("handshake_flag", model.B(prevCup), strconv.Itoa(len(st.Writes)+1))
+	}
+	for i := 0; i < 5; i++ {
+		time.Sleep(50 * time.Millisecond)
+		hz, cu, cuKnown := false, false, false
+		if c, err := srv.Dial(follower.Port); err == nil {
+			c.Timeout = 3 * time.Second
+			if v, err := c.Do("HEALTHZ"); err == nil {
+				hz = v.Kind == '+' && v.Str == "OK"
+			}
+			c.Close()
+		}
+		lacks := true
+		if pk.Stage != "aofmd5" { // followCheckSome holds the server lock while it probes: SERVER and GET would block
+			if c, err := srv.Dial(follower.Port); err == nil {
+				c.Timeout = 2 * time.Second
+				if m, err := serverMap(c); err == nil {
+					cu, cuKnown = m["caught_up"] == "true", true
+				}
+				c.Close()
+			}
+			if has, _ := hasMarker(follower.Port, marker); has == 1 {
+				lacks = false
+			}
+		}
+		if !lacks {
+			x.dist("stall-marker-present")
+			return false
+		}
+		what := fmt.Sprintf("the replication connections were dropped, the leader acknowledged %d more commands (last: __marker %s), the follower's reconnect is held at stage %q of the handshake (connection accepted after the acknowledgements): the follower lacks the marker but answers HEALTHZ ok=%v, SERVER caught_up=%v (flag before the drop: %v)",
+			len(st.Writes)+1, marker, pk.Stage, hz, cu, prevCup)
+		if hz || cu {
+			x.fail(hx.Failure{Kind: "oracle", Signature: "healthy-while-reconnecting:stage=" + pk.Stage, What: what, Case: caseOf(sc, si)})
+			if mflag == "0" {
+				x.fail(hx.Failure{Kind: "correspondence", Signature: "caught-up-flag-during-handshake",
+					What: "the model (begin_connect: the flag is cleared before the leader is dialled; c06_reconnecting_not_caught_up) says caught_up=false during a reconnect attempt, the follower says true",
+					Case: caseOf(sc, si), Impl: fmt.Sprintf("healthz=%v caught_up=%v stage=%s", hz, cu, pk.Stage), Model: "caught_up=" + mflag})
+			}
+			return true
+		}
+		if cuKnown && mflag != "0" && mflag != "?" {
+			x.fail(hx.Failure{Kind: "correspondence", Signature: "caught-up-flag-during-handshake", What: "model and follower disagree on the flag during a reconnect attempt",
+				Case: caseOf(sc, si), Impl: fmt.Sprintf("caught_up=%v", cu), Model: "caught_up=" + mflag})
+			return true
+		}
+	}
+	return false
+}
+
 func sesPos(s *session) interface{} {
 	if s == nil {
 		return nil
@@ -789,7 +888,7 @@ func (x *ctx) correspond(sc Scenario, si int, st Step, ses *session, f, l []byte
 // ---- driver ----
 
 func runC06(r *hx.Result, cfg hx.Config) {
-	r.Rule = "one evaluation = one (scenario, step): a fault from {FOLLOW, follower restart by SIGKILL / SIGTERM, dropped replication connections, leader AOFSHRINK, follower SIGSTOP/SIGCONT} with leader writes acknowledged during it, on a real leader/follower pair whose initial follower is empty / a true record-boundary prefix of the leader's log / unrelated data (thorough: also above 512 KiB, a diverged copy and a copy differing in a middle block); after each step the direct oracles (premature caught-up while the stream is held, convergence of dumps and aof_size) and the model correspondence of the resume decision are evaluated. non-trivial = the leader history up to that step contains at least one accepted write."
+	r.Rule = "one evaluation = one (scenario, step): a fault from {FOLLOW, follower restart by SIGKILL / SIGTERM, dropped replication connections, leader AOFSHRINK, follower SIGSTOP/SIGCONT, dropped connections followed by a reconnect that the proxy holds or refuses at a stage of the handshake (dial, refused, SERVER, AOFMD5, REPLCONF, AOF) while HEALTHZ / caught_up are sampled} with leader writes acknowledged during it, on a real leader/follower pair whose initial follower is empty / a true record-boundary prefix of the leader's log / unrelated data (thorough: also above 512 KiB, a diverged copy and a copy differing in a middle block); after each step the direct oracles (premature caught-up while the stream is held, convergence of dumps and aof_size) and the model correspondence of the resume decision are evaluated. non-trivial = the leader history up to that step contains at least one accepted write."
 	r.Assumptions = []string{"MD5 collision-freeness on equal-length blocks (model hypothesis md5_inj)", "the proxy relays bytes unchanged; the probe sequence and AOF position are read off the wire",
 		"no object or hook deadline elapses during a scenario (EX 5000 only), so the follower's own expiry sweeper writes nothing"}
 	x := &ctx{r: r, cfg: cfg}
